@@ -6,7 +6,6 @@ package tq
 // its manifest directly from numbers; this part ties those numbers to the configuration keys the statement names.
 
 import (
-
 	"github.com/git-lfs/git-lfs/v3/git"
 	"github.com/git-lfs/git-lfs/v3/lfsapi"
 	"github.com/git-lfs/git-lfs/v3/lfshttp"
